@@ -269,6 +269,133 @@ func emitEncSize(L int) {
 	em.Line(runEncSize(L), "tth", "encsz", strconv.Itoa(L))
 }
 
+func boolStr(b bool) string {
+	if b {
+		return "true"
+	}
+	return "false"
+}
+
+func runIsStreaming(b []byte) string {
+	return lib.Guard(func() string { return boolStr(ttheader.IsStreaming(b)) })
+}
+
+func runIsTTHeader(b []byte) string {
+	return lib.Guard(func() string { return boolStr(ttheader.IsTTHeader(b)) })
+}
+
+func runWriteString(sv []byte) string {
+	return lib.Guard(func() string {
+		var buf []byte
+		w := bufiox.NewBytesWriter(&buf)
+		n, err := ttheader.WriteString(string(sv), w)
+		if err != nil {
+			return "err"
+		}
+		if err := w.Flush(); err != nil {
+			return "err"
+		}
+		return fmt.Sprintf("ok %d %s", n, lib.Hex(buf))
+	})
+}
+
+func runWriteUint32(v uint32) string {
+	return lib.Guard(func() string {
+		var sink bytes.Buffer
+		w := bufiox.NewDefaultWriter(&sink)
+		if err := ttheader.WriteUint32(v, w); err != nil {
+			return "err"
+		}
+		if err := w.Flush(); err != nil {
+			return "err"
+		}
+		b := sink.Bytes()
+		return fmt.Sprintf("ok %s %d %d", lib.Hex(b), ttheader.Bytes2Uint32NoCheck(b), ttheader.Bytes2Uint16NoCheck(b))
+	})
+}
+
+func emitUtil(op string, b []byte) {
+	if part == "dec" {
+		return
+	}
+	var res string
+	switch op {
+	case "isstream":
+		res = runIsStreaming(b)
+	case "istth":
+		res = runIsTTHeader(b)
+	case "wstr":
+		res = runWriteString(b)
+	}
+	em.Count("util-" + op + ":" + strings.Fields(res)[0])
+	em.Line(res, "tth", op, lib.Hex(b))
+}
+
+// genUtil: the exported helpers of utils.go
+func genUtil(o *lib.Opts, r *lib.Rng) {
+	n := 300
+	if o.Tier == "thorough" {
+		n = 20000
+	}
+	// every length 0..12 with and without magic/flag
+	for l := 0; l <= 12; l++ {
+		for k := 0; k < 4; k++ {
+			b := r.Bytes(l)
+			if k&1 != 0 && l > 5 {
+				b[4], b[5] = 0x10, 0
+			}
+			if l > 7 {
+				if k&2 != 0 {
+					b[7] |= 2
+				} else {
+					b[7] &^= 2
+				}
+			}
+			emitUtil("isstream", b)
+			emitUtil("istth", b)
+		}
+	}
+	// every single flag bit, their complements, and the magic off by one bit
+	for bit := 0; bit < 16; bit++ {
+		for _, f := range []int{1 << bit, 0xffff &^ (1 << bit)} {
+			emitUtil("isstream", mkFrame(uint32(r.U64()), 0x1000, f, 1, 1, []byte{0, 0, 0, 0}))
+		}
+		emitUtil("isstream", mkFrame(0, 0x1000^(1<<bit), 2, 1, 1, nil))
+		emitUtil("istth", mkFrame(0, 0x1000^(1<<bit), 2, 1, 1, nil))
+	}
+	// frames produced by Encode, with and without the streaming flag
+	for i := 0; i < n/3; i++ {
+		p := rparam(r, 3, 6)
+		p.Flags = ttheader.HeaderFlags(r.Pick(0, 1, 2, 3, 8, 0x8002, 0xfffd, 0xffff, r.Intn(65536)))
+		if fr, err := ttheader.EncodeToBytes(ctx, p); err == nil {
+			binary.BigEndian.PutUint32(fr, uint32(len(fr)-4)) // the length field holds whatever fresh memory held
+			emitUtil("isstream", append(fr, r.Bytes(r.Intn(5))...))
+			emitUtil("istth", fr)
+		}
+	}
+	for i := 0; i < n; i++ {
+		b := r.Bytes(r.Intn(24))
+		if len(b) > 5 && r.Chance(3, 4) {
+			b[4], b[5] = 0x10, 0
+		}
+		emitUtil("isstream", b)
+	}
+	// WriteString / WriteUint32
+	for _, l := range []int{0, 1, 2, 3, 4, 255, 256, 257, 4095, 4096, 4097, 65535, 65536, 70000} {
+		emitUtil("wstr", r.Bytes(l))
+	}
+	for i := 0; i < n/3; i++ {
+		emitUtil("wstr", r.Bytes(r.Intn(40)))
+	}
+	for _, v := range []uint32{0, 1, 0xff, 0x100, 0xffff, 0x10000, 0x7fffffff, 0x80000000, 0xffffffff, 0x01020304} {
+		em.Line(runWriteUint32(v), "tth", "wu32", strconv.FormatUint(uint64(v), 10))
+	}
+	for i := 0; i < n/6; i++ {
+		v := uint32(r.U64())
+		em.Line(runWriteUint32(v), "tth", "wu32", strconv.FormatUint(uint64(v), 10))
+	}
+}
+
 // ---------------------------------------------------------------- emitting
 
 var part string
@@ -947,6 +1074,19 @@ func replay(lines [][]string) {
 		case f[1] == "encsz" && len(f) == 3:
 			L, _ := strconv.Atoi(f[2])
 			em.Line(runEncSize(L), f...)
+		case (f[1] == "isstream" || f[1] == "istth" || f[1] == "wstr") && len(f) == 3:
+			b := lib.UnHex(f[2])
+			switch f[1] {
+			case "isstream":
+				em.Line(runIsStreaming(b), f...)
+			case "istth":
+				em.Line(runIsTTHeader(b), f...)
+			default:
+				em.Line(runWriteString(b), f...)
+			}
+		case f[1] == "wu32" && len(f) == 3:
+			v, _ := strconv.ParseUint(f[2], 10, 32)
+			em.Line(runWriteUint32(uint32(v)), f...)
 		case f[1] == "dec" && len(f) == 3:
 			b := lib.UnHex(f[2])
 			em.Line(runDecBytes(b, len(b)), f...)
@@ -968,6 +1108,9 @@ func main() {
 	replay(lib.ReadOpLines(o.Corpus))
 	r := lib.NewRng(o.Seed)
 	genEnc(o, r)
+	if part != "dec" {
+		genUtil(o, lib.NewRng(o.Seed+0x5151))
+	}
 	genDec(o, lib.NewRng(o.Seed+0x7711))
 	em.Close(o.Stats)
 }
